@@ -37,7 +37,8 @@ class Instance:
     """
 
     def __init__(self, name, body, params=None, expect=None, max_paths=200000, split=0, native_timeout=20,
-                 max_loop=None, validate_paths=2, bound="", native_patches=()):
+                 max_loop=None, validate_paths=2, bound="", native_patches=(), timeout=900):
+        self.timeout = timeout
         self.native_patches = list(native_patches)
         self.name = name
         self.body = body
@@ -140,6 +141,10 @@ def explore_task(pid, tier, idx, prefix, seed):
                violation=None, error=None, validated=0, encoded=[], samples=[], notes=[])
     work = [list(prefix)]
     first = True
+    deadline = t0 + inst.timeout
+    if os.environ.get("VERIF_TRACE"):
+        with open(os.environ["VERIF_TRACE"], "a") as tf:
+            tf.write("%d start %s prefix=%d\n" % (os.getpid(), inst.name, len(prefix)))
     if inst.max_loop:
         Interp.MAX_LOOP = inst.max_loop
     while work:
@@ -202,6 +207,9 @@ def explore_task(pid, tier, idx, prefix, seed):
                 work.append(q)
         if res["paths"] + res["aborted"] > inst.max_paths:
             res["error"] = "path budget exceeded (inconclusive)"
+            break
+        if time.time() > deadline and work:
+            res["error"] = "instance time budget of %ds exceeded with %d branches unexplored (inconclusive)" % (inst.timeout, len(work))
             break
     from symx.interp import Interp as _I
 
